@@ -1,5 +1,5 @@
 #!/usr/bin/env python3
-"""usage: tools/refac.py <id> <variant> [--props C01,C02,...]
+"""usage: tools/refac.py <id> <variant> [--props C01,C02,...] [--tier quick|thorough] [--src dir]
 Runs the quick tier of every check (or the given ones) against a behaviour-preserving refactoring
 delivered under /tmp/refac/ (kept copy: /verif/refactored/<id>-<variant>/): scratch copy of /repo HEAD outside
 /repo and /verif, git apply, go build, go vet, the repository's tests (also with -race), then the checks via
@@ -9,7 +9,7 @@ ENV = dict(os.environ, GOFLAGS='-mod=mod', GOPROXY='off', GOSUMDB='off', GOTOOLC
 def sh(cmd, cwd=None, timeout=3600):
     p = subprocess.run(cmd, shell=True, cwd=cwd, env=ENV, stdout=subprocess.PIPE, stderr=subprocess.STDOUT, timeout=timeout)
     return p.returncode, p.stdout.decode(errors='replace')
-ap = argparse.ArgumentParser(); ap.add_argument('id'); ap.add_argument('variant'); ap.add_argument('--props'); ap.add_argument('--src', default='/tmp/refac')
+ap = argparse.ArgumentParser(); ap.add_argument('id'); ap.add_argument('variant'); ap.add_argument('--props'); ap.add_argument('--src', default='/tmp/refac'); ap.add_argument('--tier', default='quick')
 a = ap.parse_args()
 allp = ['C%02d' % i for i in range(1, 21)]
 props = a.props.split(',') if a.props else allp
@@ -19,7 +19,7 @@ if not os.path.exists(patch):
     patch, metaf = kept + '/patch.diff', kept + '/meta.json'
 base = tempfile.mkdtemp(prefix='rf.', dir='/tmp'); w = base + '/with'
 os.makedirs(w); sh(f'git -C /repo archive HEAD | tar -x -C {w}')
-rec = {'repo_commit': sh('git -C /repo rev-parse --short HEAD')[1].strip()}
+rec = {'tier': a.tier, 'repo_commit': sh('git -C /repo rev-parse --short HEAD')[1].strip()}
 rc, out = sh(f'git init -q . ; git apply --whitespace=nowarn {patch}', cwd=w)
 if rc != 0:
     print('PATCH-DOES-NOT-APPLY', out); shutil.rmtree(base); sys.exit(2)
@@ -29,7 +29,7 @@ rc, out = sh('go test -race -vet=off -count=1 .', cwd=w, timeout=1800)
 rec['race_tests'] = 'pass' if rc == 0 else 'FAIL: ' + out[-400:]
 rec['checks'] = {}
 for p in props:
-    rc, out = sh(f'VERIF_REPO={w} /verif/bin/vcheck run {p} --tier quick', cwd='/verif', timeout=3600)
+    rc, out = sh(f'VERIF_REPO={w} /verif/bin/vcheck run {p} --tier {a.tier}', cwd='/verif', timeout=7200)
     sigs = sorted({l.split('sig=')[1].strip() for l in out.splitlines() if 'sig=' in l})
     eng = [l[:200] for l in out.splitlines() if 'ENGINE' in l]
     msgs = [l.strip()[:300] for l in out.splitlines() if l.startswith('  ') and 'rule=' not in l][:3]
